@@ -108,6 +108,7 @@ type Frame struct {
 	curLocalAddrs map[string]SV
 	localsSameBlock bool
 	frame *frameInfo
+	lastCallRes []SV // results of the call a `hint after` clause is attached to (instr.go)
 }
 
 type retRec struct {
